@@ -17,6 +17,9 @@ func main() {
 	rep.Rule = "behaviours of DBFile.tla (pager programs in rollback-journal mode: any set of modified/appended/freed pages, DELETE/TRUNCATE/PERSIST, synced and no-sync headers, rollback before and after spill, creation from nothing, shrink with late truncate) replayed on a real node; a case is one (behaviour, concretisation); non-trivial = at least one transaction was captured"
 	rep.Assumptions = []string{"SQLite's pager is represented by the environment part of DBFile.tla (Appendix A of DESIGN.md)", "CRC64 collisions ignored"}
 	defer core.Cleanup()
+	if t3.MaybeReplay(rep, args, map[string]bool{"C02": true}) {
+		rep.Finish()
+	}
 	dbreplay.Post = func() { t3.Stage(rep, args, map[string]bool{"C02": true}) }
 	dbreplay.Main(rep, args, "C02", []dbreplay.Stage{
 		{Name: "rb-3pg-3ops-exhaustive", Cfg: core.Pick(args, "MC_DBFile_rb.cfg", "MC_DBFile_rb.cfg"), Timeout: 10 * time.Minute, MaxKeep: core.Pick(args, 600, 0)},
